@@ -2,7 +2,7 @@
     Model: Std/Time.v (mirrors jaq-std/src/time.rs for integer epochs in UTC; jiff's civil arithmetic by the
     era-based day-count algorithms). *)
 From Coq Require Import ZArith Bool List.
-From JaqV Require Import Std.Time Proofs.TimeLaws.
+From JaqV Require Import Std.Time Proofs.TimeLaws Proofs.TimeRoundtrip.
 Local Open Scope Z_scope.
 
 (** every day number, over all of Z, maps to a calendar date and back *)
@@ -37,6 +37,17 @@ Proof.
   - apply (Z.lt_irrefl u). eapply Z.le_lt_trans; eassumption.
 Qed.
 Print Assumptions out_of_range_rejected.
+
+(** the date of every day number is a valid date of the calendar (leap years included) *)
+Theorem civil_date_valid : forall z, let '(y, m, d) := civil_from_days z in valid_date y m d = true.
+Proof. exact TimeRoundtrip.civil_valid. Qed.
+Print Assumptions civil_date_valid.
+
+(** gmtime | mktime is the identity on every whole number of seconds that gmtime accepts *)
+Theorem mktime_of_gmtime : forall t y m0 d h mi s rest,
+  gmtime_int t = TOk (y :: m0 :: d :: h :: mi :: s :: rest) -> mktime_int y m0 d h mi s = TOk t.
+Proof. exact TimeRoundtrip.mktime_of_gmtime. Qed.
+Print Assumptions mktime_of_gmtime.
 
 Example gmtime_example : gmtime_int 951782400 = TOk (2000 :: 1 :: 29 :: 0 :: 0 :: 0 :: 2 :: 59 :: nil).
 Proof. reflexivity. Qed.
